@@ -266,7 +266,7 @@ func genValue(rt *rapid.T, t reflect.Type, o ValOpts, depth int) Recipe {
 				n = rapid.IntRange(9, 300).Draw(rt, "bigsllen")
 			}
 		}
-		if isRecursive(t.Elem()) && depth/2 >= o.Depth {
+		if (isRecursive(t.Elem()) || isRecursive(t)) && depth/2 >= o.Depth {
 			n = 0
 		}
 		r := Recipe{Elems: make([]Recipe, 0, n)}
@@ -289,7 +289,7 @@ func genValue(rt *rapid.T, t reflect.Type, o ValOpts, depth int) Recipe {
 		if k > 1 {
 			n = rapid.IntRange(1, o.MaxLen).Draw(rt, "mlen")
 		}
-		if isRecursive(t.Elem()) && depth/2 >= o.Depth {
+		if (isRecursive(t.Elem()) || isRecursive(t)) && depth/2 >= o.Depth {
 			n = 0
 		}
 		r := Recipe{}
@@ -373,11 +373,11 @@ func genDynType(rt *rapid.T, o ValOpts, depth int) TypeDesc {
 }
 
 func isRecursive(t reflect.Type) bool {
-	for t.Kind() == reflect.Ptr || t.Kind() == reflect.Slice {
+	for i := 0; i < 8 && t.Name() == "" && (t.Kind() == reflect.Ptr || t.Kind() == reflect.Slice); i++ {
 		t = t.Elem()
 	}
 	switch t.Name() {
-	case "Rec", "RecA", "RecB":
+	case "Rec", "RecA", "RecB", "RecM", "RecS", "RecMS":
 		return true
 	}
 	return false
